@@ -19,6 +19,29 @@ fn parse_mv(s: &str) -> Option<ChessMove> {
 }
 fn board_of(e: &str) -> Option<Board> { builder_from_enc(e).and_then(|bb| Board::try_from(&bb).ok()) }
 
+/// executes a sequence of game operations (tokens as in the "game" stream) and renders the
+/// stream's line: used by `replayops game` and by the scripted games of the game stream
+pub fn game_line(start: Board, ops: &[&str]) -> String {
+    let mut g = Game::new_with_board(start);
+    let mut s = format!("G {} | s={}", enc(&start), crate::game::state(&g));
+    for op in ops {
+        let op = opname(op);
+        if op == "s" || op.is_empty() { continue; }
+        let c = |ch: Option<char>| if ch == Some('w') { Color::White } else { Color::Black };
+        let ret = match op.chars().next() {
+            Some('m') => match parse_mv(&op[1..]) { Some(m) => g.make_move(m), None => continue },
+            Some('o') => g.offer_draw(c(op.chars().nth(1))),
+            Some('a') => g.accept_draw(),
+            Some('r') => g.resign(c(op.chars().nth(1))),
+            Some('d') => g.declare_draw(),
+            _ => continue,
+        };
+        s.push_str(&format!(" {}={},{}", op, ret as u8, crate::game::state(&g)));
+    }
+    s.push_str(&format!(" | {}", enc(&g.current_position())));
+    s
+}
+
 pub fn run(kind: &str) {
     std::panic::set_hook(Box::new(|_| {}));
     let stdin = std::io::stdin();
@@ -32,23 +55,7 @@ pub fn run(kind: &str) {
         match kind {
             "game" => {
                 let start = match board_of(head) { Some(b) => b, None => { writeln!(out, "REJECTED {}", line).unwrap(); continue; } };
-                let mut g = Game::new_with_board(start);
-                let mut s = format!("G {} | s={}", enc(&start), crate::game::state(&g));
-                for op in ops {
-                    if op == "s" { continue; }
-                    let c = |ch: Option<char>| if ch == Some('w') { Color::White } else { Color::Black };
-                    let ret = match op.chars().next() {
-                        Some('m') => match parse_mv(&op[1..]) { Some(m) => g.make_move(m), None => continue },
-                        Some('o') => g.offer_draw(c(op.chars().nth(1))),
-                        Some('a') => g.accept_draw(),
-                        Some('r') => g.resign(c(op.chars().nth(1))),
-                        Some('d') => g.declare_draw(),
-                        _ => continue,
-                    };
-                    s.push_str(&format!(" {}={},{}", op, ret as u8, crate::game::state(&g)));
-                }
-                s.push_str(&format!(" | {}", enc(&g.current_position())));
-                writeln!(out, "{}", s).unwrap();
+                writeln!(out, "{}", game_line(start, &ops)).unwrap();
             }
             "iter" => {
                 let b = match board_of(head) { Some(b) => b, None => { writeln!(out, "REJECTED {}", line).unwrap(); continue; } };
